@@ -540,6 +540,53 @@ class Exec(ExprMixin, HeapMixin, StmtMixin, CallMixin, BuiltinMixin):
         t = join_types(a.t, b.t)
         return V(BOOL, box(coerce(a, t)) == box(coerce(b, t)))
 
+    # ------------------------------------------------------------------ emit discipline
+    def emit_fields(self, cls: str):
+        """Declared, non-ghost fields of immutable type of the unit's class: what a listener can observe directly."""
+        out = []
+        ci = self.repo.classes.get(cls)
+        spec = self.reg.classes.get(ci.qual) if ci is not None else None
+        if spec is None:
+            return out
+        for f, ttxt in spec.fields.items():
+            t = self.parse_type(ttxt)
+            if isinstance(t, (TInt, TBool, TStr, TReal, TNone, TEnum)) or (isinstance(t, TOpt) and isinstance(t.inner, (TInt, TBool, TStr, TReal, TEnum))):
+                out.append((f, t))
+        return out
+
+    def emit_discipline(self, recv, st: State, node):
+        """self.emit(...) inside the unit under verification whose contract carries at_emit clauses: the clauses are
+        obligations here (old() = entry state), and the values of self's declared scalar fields are recorded so that
+        the exit can be checked against them (nothing is written after listeners ran)."""
+        if len(self.contract_stack) != 1:
+            return
+        c = self.contract_stack[-1]
+        if not c.at_emit or self.param_values.get("self") is None or not isinstance(recv.t, TObj):
+            return
+        selfv = self.param_values["self"]
+        if not z3.eq(recv.z, selfv.z):
+            return
+        for k, r in enumerate(c.at_emit):
+            self.oblige_spec(st, r, f"at_emit[{k}]", f"emit @ line {getattr(node, 'lineno', self.cur_line)}", node, old=self.entry_state)
+        st.locals["$emitted"] = V(BOOL, z3.BoolVal(True))
+        for f, t in self.emit_fields(recv.t.cls):
+            st.locals[f"$at_emit_{f}"] = self.ev_spec_val(f"self.{f}", st)
+
+    def check_after_emit(self, c, fin: State):
+        if not c.at_emit or "$emitted" not in fin.locals:
+            return
+        flag = fin.locals["$emitted"].z
+        selfv = self.param_values["self"]
+        for f, t in self.emit_fields(selfv.t.cls):
+            snap = fin.locals.get(f"$at_emit_{f}")
+            if snap is None:
+                continue
+            cur = self.ev_spec_val(f"self.{f}", fin)
+            t = join_types(cur.t, snap.t)
+            goal = z3.Implies(flag, box(coerce(cur, t)) == box(coerce(snap, t)))
+            self.oblige(fin, goal, f"after_emit[{f}]", "exit", None,
+                        note=f"self.{f} at exit equals its value when emit() was called (listeners may re-enter)")
+
     # ------------------------------------------------------------------ ghost code
     def exec_ghost(self, src: str, st: State):
         tree = ast.parse(textwrap.dedent(src))
@@ -618,6 +665,10 @@ class Exec(ExprMixin, HeapMixin, StmtMixin, CallMixin, BuiltinMixin):
             if rt is None or not isinstance(rt, TList):
                 raise Unsupported("generator contract needs returns='list[T]' (the yielded values)")
             st.locals["$yield"] = self.new_list_from_seq(st, rt.elt, theory_of(rt).Empty)
+        if c.at_emit and "self" in self.param_values and isinstance(self.param_values["self"].t, TObj):
+            st.locals["$emitted"] = V(BOOL, z3.BoolVal(False))
+            for f, t in self.emit_fields(self.param_values["self"].t.cls):
+                st.locals[f"$at_emit_{f}"] = self.ev_spec_val(f"self.{f}", st)
         self.sinks = [[]]
         outs = self.exec_block(strip_docstring(fnode.body), st)
         raised = self.sinks[0]
@@ -668,6 +719,7 @@ class Exec(ExprMixin, HeapMixin, StmtMixin, CallMixin, BuiltinMixin):
                 goal = z3.Not(self.ev_spec(cond, tmp))
                 self.oblige(fin, goal, f"raises[{exc}].iff", "normal exit implies not raise-condition", None, note=cond)
         self.check_frame(c, ci, fin, entry)
+        self.check_after_emit(c, fin)
 
     def check_raise(self, c, ci, oc: Outcome, entry: State):
         exc = oc.value
